@@ -381,6 +381,28 @@ class World:
         b["len"] = v_len
         b.update(print=v_print, open=v_open, int=_IntProxy(v_int), bool=_BoolProxy(v_bool),
                  range=v_range, bytes=v_bytes, float=_FloatProxy(v_float), __import__=v_import)
+
+        def v_type(*a, **k):
+            # type(x): the stand-ins for int / bool / float are what the names `int`, `bool`, `float` evaluate to in
+            # interpreted code, so `type(x) is int` must answer with the very same object; a symbolic integer is an
+            # int (a symbolic truth value a bool), as its concrete instances are
+            if len(a) == 1 and not k:
+                x = a[0]
+                if isinstance(x, SymBool):
+                    return b["bool"]
+                if isinstance(x, SymInt):
+                    return b["int"]
+                t = type(x)
+                if t is bool:
+                    return b["bool"]
+                if t is int:
+                    return b["int"]
+                if t is float:
+                    return b["float"]
+                return t
+            return type(*a, **k)
+        tp = _TypeTypeProxy(v_type)
+        b["type"] = tp
         if self.ipython:
             b["get_ipython"] = v_get_ipython
         return b
@@ -509,7 +531,11 @@ class _FloatProxy(_TypeProxy):
     real = float
 
 
-_PROXY_REAL = {_IntProxy: int, _BoolProxy: bool, _FloatProxy: float}
+class _TypeTypeProxy(_TypeProxy):
+    real = type
+
+
+_PROXY_REAL = {_IntProxy: int, _BoolProxy: bool, _FloatProxy: float, _TypeTypeProxy: type}
 
 
 def _unproxy(t):
